@@ -22,7 +22,11 @@ GEN_TIES = {'Rankscore': 'Props/GenTie_Rankscore.v'}
 TIE = {'convert.py converters, vote.py subsetters': 'correspondence',
        'component/rankscore.py Dowdall / Geometric / ModifiedBorda / FixedTop': 'translator (per-rank score expressions regenerated into Gen/Rankscore.v on '
                                                                                    'every run, Props/GenTie_Rankscore.v proves them equal to Model/Convert.v rank_scores) + correspondence',
-       'component/rankscore.py Borda (stateful) / SequenceBased (slicing)': 'correspondence',
+       'component/rankscore.py select_padded / Borda.set_n_candidates / Borda.scores (initialised scorer) / SequenceBased.scores':
+           'translator (typed translation of the list slicing / padding and of the stored score list into Gen/Rankscore.v; '
+           'Props/GenTie_Rankscore.v GenTie_Rankscore_lists proves them equal to select_padded / rank_scores of Model/Convert.v and to '
+           'borda_set_n / borda_scores_st of Model/State.v) + correspondence',
+       'component/rankscore.py Borda.scores on an uninitialised scorer (RuntimeError)': 'correspondence (C18)',
        'convert.py VoteTotals / MergedDistributions / ConstituencyTotals / PartyTotals / InvertedSimpleVotes / GroupVotesByParty / '
        'IndividualToPartyResult / SelectionToDistribution / MergedSelections / ByConstituency / Chain (Model/Convert2.v, unit 210)': 'correspondence',
        'convert.py RoundedVotes (alone, behind Chain, inside ByConstituency)': 'correspondence with Model/Convert2.v round_q (exact rounding) inside the 28 digit '
